@@ -13,7 +13,7 @@ MANIFEST = {
             'with-replacement wrappers carve NCR_EXTRA off dst exactly when the encoding cannot encode everything, write the NCR at '
             'dst[total_written..], and decide InputEmpty/OutputFull after an NCR as documented (path summaries shared with C09). '
             'Equality of concatenated bytes over all histories is not decided. ' 
-            '(R-DIM) dimension inference over the index arithmetic of the slice-to-slice converters (no sum or difference mixes a source and a destination quantity; each buffer indexed with its own quantities; (read, written) = (source, destination) quantity; a path that advances the source position and returns has produced output; inside a loop that walks a buffer with a loop-carried position every index into that buffer depends arithmetically on such a position). (R-UTF8ASM) every place that assembles a value from the bytes of a UTF-8 sequence (OR/ADD of shifted byte terms) has the shifts 6(n-1)..0, a lead term equal to byte-C0/E0/F0 on the n-byte leads and continuation terms equal to byte-80 on 80-BF, compared as exact functions over the byte domains, loaded from consecutive positions where the loads resolve (here: handles::Utf8Source, 15 sites: what the encoders read from UTF-8 input is the scalar the UTF-16 path would see).',
+            '(R-DIM) dimension inference over the index arithmetic of the slice-to-slice converters (no sum or difference mixes a source and a destination quantity; each buffer indexed with its own quantities; (read, written) = (source, destination) quantity; a path that advances the source position and returns has produced output; inside a loop that walks a buffer with a loop-carried position every index into that buffer depends arithmetically on such a position). (R-UTF8ASM) every place that assembles a value from the bytes of a UTF-8 sequence (OR/ADD of shifted byte terms) has the shifts 6(n-1)..0, a lead term equal to byte-C0/E0/F0 on the n-byte leads and continuation terms equal to byte-80 on 80-BF, compared as exact functions over the byte domains, loaded from consecutive positions where the loads resolve (here: handles::Utf8Source, 15 sites: what the encoders read from UTF-8 input is the scalar the UTF-16 path would see). (R-ASCIICOPY) the ASCII fast-path helpers of the handles (copy_ascii_from/to_check_space_*) advance the source and the destination position in step by what the ASCII kernel consumed, add only the units of the non-ASCII character on the source side and nothing on a path that stops, and report with Stop the source position itself and the destination position.',
     'note': 'Trusted: rustc MIR, mirx, rule library.',
     'technique': 'control-dependence taint rule + MIR dataflow + sibling-expansion comparison + bounded path summaries',
 }
